@@ -25,6 +25,10 @@ deriving Repr, DecidableEq, Inhabited
 /-- `len(strconv.Itoa(x))` -/
 def itoaLen (x : Int) : Int := (toString x).length
 
+/-- a Go `int` result that does not fit 64 bits (the generated `…Ovf` companions collect these for
+every +, -, *, unary -, / on the executed path; division by zero counts as well) -/
+def outI64 (x : Int) : Bool := decide (x < -9223372036854775808) || decide (x > 9223372036854775807)
+
 /-- placeholder the extractor emits for an expression it cannot translate (it also records a
 problem): the generated file still compiles, so that only the theorems that use the affected
 definition stop checking -/
